@@ -225,7 +225,8 @@ def run(ctx, replay=None):
     progs.extend([alpha[rnd.randrange(len(alpha))] for _ in range(rnd.choice([3, 4, 5, 6]))] for _ in range(ctx.pick(150, 3000)))
     progs.extend(gen_jump.rmodel(rnd, maxlen=rnd.choice([6, 14]), ops=['+', '-', '<', '==', '&&', '||']) for _ in range(ctx.pick(150, 3000)))
     for m in progs:
-        fam = family_of(lambda L, m=m: c08.make_case(m, L, twice=False), big=120, sweep=ctx.pick(30, 60), rnd=rnd)
+        pre = rnd.random() < 0.3      # some families re-use one options object: a run before the observed one
+        fam = family_of(lambda L, m=m, pre=pre: c08.make_case(m, L, twice=False, prerun=pre), big=120, sweep=ctx.pick(30, 60), rnd=rnd)
         add_family(fam, {'model': A.jump_text(m)})
     # structured programs through the real parser
     nbody = 0
